@@ -66,3 +66,10 @@ GROUPS += [
           props=["C10", "C11", "C17"], assumed=["rawlp/ranges: static transferRanges called through goto-cc --export-file-local-symbols; ILLdata_error is a counter; at most one RANGES entry per row (enforced by mps.c add_ranges, not decided here)"]),
 ]
 
+
+GROUPS += [
+    Group("rawlp/objective", "rawlp_objective.c", tus=["rawlp_mpq.c", "eg_lpnum.c", "allocrus.c"], model=MODEL, defines=["QSV_GMP_EXACT", "QSV_NARROW", "QSV_INF=1024"], dfcc=False, export_static=True, unwind=5, kind="bounded", namebuf=512, timeout=1200,
+          bound="2 raw columns mapped to distinct columns of a 3-column problem, at most 3 coefficient nodes per column on the objective row or 2 constraint rows (repeats allowed), integer values in -3..3; exact pair arithmetic (GMP model EXACT+NARROW); loops completely unwound",
+          flags=["--no-malloc-may-fail"], must_fail=["reach_end", "reach_repeated_objective_term"], functions=["transferObjective"],
+          props=["C10", "C17"], assumed=["rawlp/objective: static transferObjective called through goto-cc --export-file-local-symbols; ILLdata_warn is a counter"]),
+]
